@@ -210,6 +210,9 @@ class RomFSReader(TypeReaderBase, FS):
                     child_dir_meta = dirmeta.read(0x18)
                     next_sibling_dir = readle(child_dir_meta[0x4:0x8])
                     child_dir_name = dirmeta.read(readle(child_dir_meta[0x14:0x18])).decode('utf-16le')
+                    if child_dir_name in ('', '.', '..') or '/' in child_dir_name:
+                        # such a name can not be told apart from its parent (or an ancestor) when walking the tree
+                        raise RomFSEntryError(f'invalid directory name {child_dir_name!r} in {current_path}')
                     child_dir_name_meta = child_dir_name.lower() if case_insensitive else child_dir_name
                     if child_dir_name_meta in out['contents']:
                         logger.warning(f'Dirname collision: {current_path}{child_dir_name}')
@@ -232,6 +235,8 @@ class RomFSReader(TypeReaderBase, FS):
                     child_file_offset = readle(child_file_meta[0x8:0x10])
                     child_file_size = readle(child_file_meta[0x10:0x18])
                     child_file_name = filemeta.read(readle(child_file_meta[0x1C:0x20])).decode('utf-16le')
+                    if child_file_name in ('', '.', '..') or '/' in child_file_name:
+                        raise RomFSEntryError(f'invalid file name {child_file_name!r} in {current_path}')
                     child_file_name_meta = child_file_name.lower() if self.case_insensitive else child_file_name
                     if child_file_name_meta in out['contents']:
                         logger.warning(f'Filename collision! {current_path}{child_file_name}')
